@@ -71,6 +71,7 @@ type Exec struct {
 	publishSeen          bool
 	privateRefs          []privateRef
 	curArgs              []*Val
+	callCovers           int
 	rootVars             map[string]*Val
 	rootLets             map[string]*Val
 	rootEntry            *State
